@@ -14,7 +14,8 @@ RULESETS = {
     "C01": {"P1", "P2", "P3", "PANIC"},
     "C02": {"L1", "L2", "L3", "PANIC"},
     "C04": {"P1", "P2", "R2", "R3", "R6", "PANIC"},
-    "C05": {"S1", "S2", "S3", "S4", "S5", "S6", "PANIC"},
+    # (R6 -- window field x negotiated shift never beyond the buffer -- is C05's "later windows are scaled as negotiated" too)
+    "C05": {"S1", "S2", "S3", "S4", "S5", "S6", "R6", "PANIC"},
     "C17": {"T1", "T2", "T3", "PANIC"},
     "C13": {"Q1", "Q2", "PANIC"},
     "C08": {"K2", "K3", "PANIC"},
